@@ -130,6 +130,34 @@ def gen_run_case(r, maxsteps):
     return ops, {"pop": pc, "x0": xc}
 
 
+def gen_reuse_case(r):
+    """re-initialisation of a used CMA object in high dimension (small c_sigma): stale per-run state (generation counter,
+    evolution paths, covariance) changes hSig within the first ~10 generations of the second run"""
+    n = r.choice([30, 40, 40, 60])
+    x0 = [r.choice([3.0, 3.0, -2.0, 0.5]) for _ in range(n)]
+    return ["obj %s %d" % (r.choice(["sphere", "sphere", "rosen"]), n), "opt cma",
+            "run %d %d %s %s" % (r.range(1, 10 ** 6), r.range(30, 40), fb(INF), nums(x0))]
+
+
+def gen_directed_case(r):
+    """far from the optimum with a small step size: selection is strongly directed, the evolution path of the step size
+    grows within the first generations and the stall indicator hSig (which depends on the generation counter) switches —
+    the situation in which stale state of a re-initialised object changes the run"""
+    if r.chance(2, 3):
+        # high dimension: small c_sigma, so the generation-counter normalisation of the path matters for ~10 generations
+        n = r.choice([20, 40, 40])
+        x0 = [r.choice([3.0, 3.0, -2.0, 0.5]) for _ in range(n)]
+        return ["obj %s %d" % (r.choice(["sphere", "rosen"]), n), "opt " + r.choice(["cma", "cma", "cma", "vdcma", "cmsa", "ecma"]),
+                "run %d %d %s %s" % (r.range(1, 10 ** 6), r.range(25, 40), fb(INF), nums(x0))]
+    n = r.choice([2, 3, 5, 8])
+    kind = r.choice(["cma", "cma", "vdcma", "cmsa"])
+    x0 = [r.choice([-1, 1]) * r.range(8, 16) * 2.0 ** r.choice([6, 10]) for _ in range(n)]
+    lam = r.choice([0, 0, 8, 12])
+    ops = ["obj sphere %d" % n, "opt %s %s" % (kind, nums([lam, lam // 2, 2, r.choice([2.0 ** -4, 2.0 ** -8, 1.0])])),
+           "run %d %d %s %s" % (r.range(1, 10 ** 6), r.range(8, 30), fb(INF), nums(x0))]
+    return ops
+
+
 def gen_conv_case(r, steps):
     kind = r.choice(["cma", "cma", "cmsa", "ecma", "vdcma", "cem", "simplex"])
     n = r.choice([1, 2, 3, 4, 5]) if kind != "vdcma" else r.choice([2, 3, 4, 5, 6, 8])
@@ -376,6 +404,10 @@ def run(ctx):
         ops, cls = gen_run_case(r, maxsteps)
         cases.append(ops)
         ctx.hist("population_class", cls["pop"]); ctx.hist("x0_class", cls["x0"])
+    for _ in range(18 if ctx.quick else 150):
+        cases.append(gen_directed_case(r)); ctx.hist("population_class", "directed-or-high-dim"); ctx.hist("x0_class", "far+small-sigma | n=20,40")
+    for _ in range(12 if ctx.quick else 60):
+        cases.append(gen_reuse_case(r)); ctx.hist("population_class", "default"); ctx.hist("x0_class", "reuse n>=30")
     cases += [gen_trace_case(r, tsteps) for _ in range(ntrace)]
     cases += gen_model_traces(r, ctx.quick)
     cases += [gen_conv_case(r, csteps) for _ in range(nconv)]
